@@ -356,6 +356,56 @@ def mklist(specs):
     return l, objs
 
 
+def enc_items(items):
+    parts = []
+    for it in items:
+        if it[0] == 's':
+            parts.append('s:' + enc_text(it[1]))
+        elif it[0] == 'o':
+            parts.append('o')
+        else:
+            parts.append(enc_elems([it]))
+    return ';'.join(parts)
+
+
+def build_tag(o):
+    return ('Tract', o.trs, o.desc) if isinstance(o, pytrs.Tract) else ('TRS', o.trs)
+
+
+def line_cont_build(is_trs, how, self_specs, items):
+    return req('cont.build', enc_bool(is_trs), how, enc_elems(self_specs), enc_items(items))
+
+
+def impl_cont_build(is_trs, how, self_specs, items, other=5):
+    """construct / extend / append / insert:<i> on a TractList (is_trs False) or TRSList; `other` stands for an
+    unacceptable object"""
+    cls = TRSList if is_trs else TractList
+    elem_specs = [it for it in items if it[0] in ('t', 'r')]
+    objs = iter(build_elems(list(self_specs) + elem_specs))
+    self_objs = [next(objs) for _ in self_specs]
+    vals = []
+    for it in items:
+        if it[0] == 's':
+            vals.append(it[1])
+        elif it[0] == 'o':
+            vals.append(other)
+        else:
+            vals.append(next(objs))
+    try:
+        l = cls(self_objs)
+        if how == 'construct':
+            l = cls(vals)
+        elif how == 'extend':
+            l.extend(vals)
+        elif how == 'append':
+            l.append(vals[0])
+        else:
+            l.insert(int(how.split(':')[1]), vals[0])
+    except Exception as e:  # noqa
+        return render_exc(e)
+    return render([build_tag(o) for o in l])
+
+
 def line_cont_sort(specs, key, rev):
     return req('cont.sort', enc_elems(specs), enc_text(key), enc_bool(rev))
 
